@@ -14,6 +14,7 @@ import (
 	"flag"
 	"fmt"
 	"hash/fnv"
+	"math"
 	"os"
 	"path/filepath"
 	"runtime"
@@ -469,7 +470,10 @@ func (p *Prop[C]) gate(cs *CheckStats) {
 	}
 	for class, min := range p.Gates {
 		got := float64(cs.Classes[class]) / float64(cs.Evaluations)
-		if got < min {
+		// A gate guards against a vacuous generator, not against sampling noise:
+		// allow three standard deviations of a class drawn with probability min.
+		slack := 3 * math.Sqrt(min*(1-min)/float64(cs.Evaluations))
+		if got < min-slack {
 			cs.GateFailures = append(cs.GateFailures, fmt.Sprintf("class %q is %.1f%% of cases, below the %.0f%% the generator must reach", class, got*100, min*100))
 		}
 	}
